@@ -1,3 +1,4 @@
 -- Property files of work group C (import UF.Props.Cxx lines go here).
 import UF.Driver.Ops.GroupC
 import UF.Props.C07
+import UF.Props.C08
